@@ -703,19 +703,23 @@ Definition cal25 : calendar := {|
                          else (t - hour_ns) / day_ns)%Z
 |}.
 
+Lemma div_iff : forall t D d, (0 < D -> (t / D = d <-> d * D <= t < (d + 1) * D))%Z.
+Proof.
+  intros t D d HD. split.
+  - intros <-. pose proof (Z.div_mod t D ltac:(lia)). pose proof (Z.mod_pos_bound t D HD). nia.
+  - intros H. symmetry. apply Z.div_unique with (t - d * D)%Z; lia.
+Qed.
+
 Lemma cal25_ok : calendar_ok cal25.
 Proof.
-  unfold calendar_ok, cal25, day_ns, hour_ns. simpl. split.
-  - intros d. destruct (Z.leb_spec d 0), (Z.leb_spec (d + 1) 0); lia.
+  unfold calendar_ok, cal25. cbn [midnight local_day]. split.
+  - intros d. unfold day_ns, hour_ns. destruct (Z.leb_spec d 0), (Z.leb_spec (d + 1) 0); lia.
   - intros d t.
+    pose proof (div_iff t day_ns d day_ns_pos) as D1.
+    pose proof (div_iff (t - hour_ns) day_ns d day_ns_pos) as D2.
+    unfold day_ns, hour_ns in *.
     destruct (Z.leb_spec d 0), (Z.leb_spec (d + 1) 0), (Z.ltb_spec t 0),
-      (Z.ltb_spec t (86400000000000 + 3600000000000)); split; intros Hx;
-      try (subst d);
-      try (pose proof (Z.div_mod t 86400000000000 ltac:(lia));
-           pose proof (Z.mod_pos_bound t 86400000000000 ltac:(lia)));
-      try (pose proof (Z.div_mod (t - 3600000000000) 86400000000000 ltac:(lia));
-           pose proof (Z.mod_pos_bound (t - 3600000000000) 86400000000000 ltac:(lia)));
-      try lia.
+      (Z.ltb_spec t (86400000000000 + 3600000000000)); lia.
 Qed.
 
 (* on the 25-hour day an instant 24.5 hours after local midnight is on the queried calendar day, yet
@@ -735,6 +739,211 @@ Proof.
        e_valid_lang := fun _ => true |},
     {| r_field := fun _ => None; r_group := fun _ => false; r_flow := fun _ => false |},
     (fun _ _ => [VTime (day_ns + 1800000000000)%Z]),
+    PAttr, k_created_on, [50; 48; 50; 49]%N, 0%Z, (day_ns + 1800000000000)%Z.
+  split; [exact cal25_ok|]. repeat split. discriminate.
+Qed.
+
+(* ---- the statements on contacts (what props/C15.v cites) ------------------------------------------- *)
+
+Lemma eval_contact_no_panic : forall e r q c,
+  validate e r q = None -> typed_contact r c -> eval_contact e r q c <> Panic.
+Proof. intros e r q c Hv Ht. apply eval_no_panic; auto. apply query_property_typed; auto. Qed.
+
+(* the query as ParseQuery returns it (validated, then simplified) evaluates to a boolean, the same one as
+   the tree the visitor built *)
+Lemma parsed_query_total : forall e r q c,
+  wf q -> validate e r q = None -> typed_contact r c ->
+  exists q' b, simplify q = Some q' /\ eval_root e r (query_property c) (simplify q) = RBool b
+               /\ eval_contact e r q' c = RBool b /\ eval_contact e r q c = RBool b.
+Proof.
+  intros e r q c Hw Hv Ht.
+  destruct (simplify_sound e r (query_property c) q Hw) as [q' [S1 [_ S2]]].
+  pose proof (eval_contact_no_panic e r q c Hv Ht) as Hn. unfold eval_contact in *.
+  destruct (eval e r (query_property c) q) as [b|] eqn:E; [|congruence].
+  exists q', b. rewrite S1. simpl. auto.
+Qed.
+
+Lemma and_on_contact : forall e r qs c, validate e r (Comb BAnd qs) = None -> typed_contact r c ->
+  (forall q, In q qs -> exists b, eval_contact e r q c = RBool b)
+  /\ eval_contact e r (Comb BAnd qs) c = RBool (forallb (fun q => as_bool (eval_contact e r q c)) qs).
+Proof. intros e r qs c Hv Ht. apply eval_and_valid; auto. apply query_property_typed; auto. Qed.
+
+Lemma or_on_contact : forall e r qs c, validate e r (Comb BOr qs) = None -> typed_contact r c ->
+  (forall q, In q qs -> exists b, eval_contact e r q c = RBool b)
+  /\ eval_contact e r (Comb BOr qs) c = RBool (existsb (fun q => as_bool (eval_contact e r q c)) qs).
+Proof. intros e r qs c Hv Ht. apply eval_or_valid; auto. apply query_property_typed; auto. Qed.
+
+Lemma simplify_on_contact : forall e r q c, wf q ->
+  exists q', simplify q = Some q' /\ big q' /\ eval_contact e r q' c = eval_contact e r q c.
+Proof. intros e r q c Hw. exact (simplify_sound e r (query_property c) q Hw). Qed.
+
+(* an empty-valued = / != tests absence / presence of the property, whatever its type *)
+Lemma empty_value_on_contact : forall e r c pt key,
+  eval_contact e r (Cond pt key OpEq []) c = RBool (no_vals (query_property c pt key))
+  /\ eval_contact e r (Cond pt key OpNe []) c = RBool (negb (no_vals (query_property c pt key))).
+Proof. intros. split; reflexivity. Qed.
+
+Lemma typed_numbers : forall r qp pt key, typed_qp r qp -> resolve_value_type r pt key = Some FNumber ->
+  exists ds, qp pt key = map VNum ds.
+Proof.
+  intros r qp pt key Ht Hty. specialize (Ht pt key). rewrite Hty in Ht. simpl in Ht.
+  induction (qp pt key) as [|x l IH]; [exists []; reflexivity|].
+  destruct (Ht x (or_introl eq_refl)) as [d ->].
+  destruct IH as [ds ->]; [intros y Hy; apply Ht; right; exact Hy|].
+  exists (d :: ds). reflexivity.
+Qed.
+
+Lemma typed_times : forall r qp pt key, typed_qp r qp -> resolve_value_type r pt key = Some FDatetime ->
+  exists ts, qp pt key = map VTime ts.
+Proof.
+  intros r qp pt key Ht Hty. specialize (Ht pt key). rewrite Hty in Ht. simpl in Ht.
+  induction (qp pt key) as [|x l IH]; [exists []; reflexivity|].
+  destruct (Ht x (or_introl eq_refl)) as [d ->].
+  destruct IH as [ds ->]; [intros y Hy; apply Ht; right; exact Hy|].
+  exists (d :: ds). reflexivity.
+Qed.
+
+(* number and date properties of a contact have at most one value (only URN properties are multi-valued,
+   and those are text) *)
+Lemma num_date_single_valued : forall r c pt key vt,
+  resolve_value_type r pt key = Some vt -> is_num_or_date vt = true ->
+  (length (query_property c pt key) <= 1)%nat.
+Proof.
+  intros r c pt key vt Hty Hnd. destruct pt; simpl in *.
+  - unfold attr_type in Hty.
+    destruct (text_eqb key k_uuid) eqn:E1; [simpl; auto|].
+    destruct (text_eqb key k_name) eqn:E2; [destruct (is_nil (c_name c)); simpl; auto|].
+    destruct (text_eqb key k_language) eqn:E3; [destruct (is_nil (c_lang c)); simpl; auto|].
+    destruct (text_eqb key k_urn) eqn:E4.
+    { exfalso. apply text_eqb_eq in E4. subst key. simpl in Hty. inversion Hty. subst vt. discriminate. }
+    destruct (text_eqb key k_tickets) eqn:E5; [simpl; auto|].
+    destruct (text_eqb key k_created_on) eqn:E6; [simpl; auto|].
+    destruct (text_eqb key k_last_seen_on) eqn:E7; [destruct (c_last_seen c); simpl; auto|].
+    simpl; auto.
+  - inversion Hty. subst vt. discriminate.
+  - destruct (assoc key (c_fields c)) as [[ft fv]|]; [|simpl; auto].
+    destruct (query_value ft fv); simpl; auto.
+Qed.
+
+Definition exactly_one (lt eq gt : res) : Prop :=
+  (lt = RBool true /\ eq = RBool false /\ gt = RBool false)
+  \/ (lt = RBool false /\ eq = RBool true /\ gt = RBool false)
+  \/ (lt = RBool false /\ eq = RBool false /\ gt = RBool true).
+
+Section OnContact.
+  Variables (e : env) (r : resolver) (c : contact) (pt : ptype) (key : text) (v : text).
+  Hypothesis Htc : typed_contact r c.
+  Hypothesis Hv : v <> [].
+
+  Let ev (o : cop) : res := eval_contact e r (Cond pt key o v) c.
+
+  Lemma number_relations_on_contact : resolve_value_type r pt key = Some FNumber ->
+    exists lt eq gt, ev OpLt = RBool lt /\ ev OpEq = RBool eq /\ ev OpGt = RBool gt
+      /\ ev OpLe = RBool (lt || eq) /\ ev OpGe = RBool (gt || eq) /\ ev OpNe = RBool (negb eq).
+  Proof.
+    intros Hty. destruct (typed_numbers r _ pt key (query_property_typed r c Htc) Hty) as [ds Hds].
+    exact (num_unions e r (query_property c) pt key v Hty Hv ds Hds).
+  Qed.
+
+  Lemma date_relations_on_contact : resolve_value_type r pt key = Some FDatetime ->
+    exists lt eq gt, ev OpLt = RBool lt /\ ev OpEq = RBool eq /\ ev OpGt = RBool gt
+      /\ ev OpLe = RBool (lt || eq) /\ ev OpGe = RBool (gt || eq) /\ ev OpNe = RBool (negb eq).
+  Proof.
+    intros Hty. destruct (typed_times r _ pt key (query_property_typed r c Htc) Hty) as [ds Hds].
+    exact (date_unions e r (query_property c) pt key v Hty Hv ds Hds).
+  Qed.
+
+  (* present: exactly one of <, =, > ; absent: none of them, and != holds *)
+  Lemma number_trichotomy_on_contact : resolve_value_type r pt key = Some FNumber ->
+    (query_property c pt key <> [] -> exactly_one (ev OpLt) (ev OpEq) (ev OpGt))
+    /\ (query_property c pt key = [] ->
+        ev OpLt = RBool false /\ ev OpEq = RBool false /\ ev OpGt = RBool false /\ ev OpNe = RBool true).
+  Proof.
+    intros Hty. split.
+    - intros Hpres.
+      destruct (typed_numbers r _ pt key (query_property_typed r c Htc) Hty) as [ds Hds].
+      pose proof (num_date_single_valued r c pt key FNumber Hty eq_refl) as Hlen.
+      destruct ds as [|d [|d' ds]]; simpl in Hds.
+      + congruence.
+      + exact (num_trichotomy e r (query_property c) pt key v Hty Hv d Hds).
+      + rewrite Hds in Hlen. simpl in Hlen. lia.
+    - intros Habs. exact (num_absent e r (query_property c) pt key v Hty Hv Habs).
+  Qed.
+
+  Lemma date_trichotomy_on_contact : resolve_value_type r pt key = Some FDatetime ->
+    (query_property c pt key <> [] -> exactly_one (ev OpLt) (ev OpEq) (ev OpGt))
+    /\ (query_property c pt key = [] ->
+        ev OpLt = RBool false /\ ev OpEq = RBool false /\ ev OpGt = RBool false /\ ev OpNe = RBool true).
+  Proof.
+    intros Hty. split.
+    - intros Hpres.
+      destruct (typed_times r _ pt key (query_property_typed r c Htc) Hty) as [ds Hds].
+      pose proof (num_date_single_valued r c pt key FDatetime Hty eq_refl) as Hlen.
+      destruct ds as [|d [|d' ds]]; simpl in Hds.
+      + congruence.
+      + exact (date_trichotomy e r (query_property c) pt key v Hty Hv d Hds).
+      + rewrite Hds in Hlen. simpl in Hlen. lia.
+    - intros Habs. exact (date_absent e r (query_property c) pt key v Hty Hv Habs).
+  Qed.
+End OnContact.
+
+(* numbers are compared by value, not by notation: the order is that of the rationals m * 10^e *)
+Lemma dec_compare_spec : forall a b k, (k <= d_e a)%Z -> (k <= d_e b)%Z ->
+  dec_compare a b = (d_m a * 10 ^ (d_e a - k) ?= d_m b * 10 ^ (d_e b - k))%Z.
+Proof.
+  intros a b k Ha Hb. unfold dec_compare.
+  set (m := Z.min (d_e a) (d_e b)).
+  assert (Hm : (k <= m)%Z) by (unfold m; lia).
+  assert (Hp : (0 < 10 ^ (m - k))%Z) by (apply Z.pow_pos_nonneg; lia).
+  replace (d_e a - k)%Z with ((d_e a - m) + (m - k))%Z by lia.
+  replace (d_e b - k)%Z with ((d_e b - m) + (m - k))%Z by lia.
+  rewrite !Z.pow_add_r by (unfold m; lia).
+  rewrite !Z.mul_assoc.
+  apply Zmult_compare_compat_r. lia.
+Qed.
+
+(* calendar-day comparison on a contact, for a queried day that is 24 hours long *)
+Lemma date_by_calendar_day_on_contact : forall (cal : calendar) e r c pt key v d t,
+  calendar_ok cal ->
+  resolve_value_type r pt key = Some FDatetime -> v <> [] ->
+  query_property c pt key = [VTime t] ->
+  e_day_start e v = Some (midnight cal d) ->
+  (midnight cal (d + 1) = midnight cal d + day_ns)%Z ->
+  eval_contact e r (Cond pt key OpLt v) c = RBool (local_day cal t <? d)%Z
+  /\ eval_contact e r (Cond pt key OpEq v) c = RBool (local_day cal t =? d)%Z
+  /\ eval_contact e r (Cond pt key OpGt v) c = RBool (d <? local_day cal t)%Z.
+Proof.
+  intros cal e r c pt key v d t Hcal Hty Hv Hq Hday H24.
+  exact (date_by_calendar_day_24h cal e r (query_property c) pt key v d t Hcal Hty Hv Hq Hday H24).
+Qed.
+
+(* the hypotheses of the calendar theorem are satisfiable: the uniform calendar (UTC) *)
+Definition cal_utc : calendar := {| midnight := fun d => (d * day_ns)%Z; local_day := fun t => (t / day_ns)%Z |}.
+
+Lemma cal_utc_ok : calendar_ok cal_utc /\ forall d, (midnight cal_utc (d + 1) = midnight cal_utc d + day_ns)%Z.
+Proof.
+  unfold calendar_ok, cal_utc. cbn [midnight local_day]. split; [split|].
+  - intros d. unfold day_ns. lia.
+  - intros d t. pose proof (div_iff t day_ns d day_ns_pos) as D1. unfold day_ns in *. lia.
+  - intros d. unfold day_ns. lia.
+Qed.
+
+(* the refutation on a contact: a created_on 24.5 h after the local midnight of the 25-hour day *)
+Lemma date_by_calendar_day_fails_on_contact :
+  exists (cal : calendar) (e : env) (r : resolver) (c : contact) (pt : ptype) (key v : text) (d t : Z),
+    calendar_ok cal
+    /\ resolve_value_type r pt key = Some FDatetime /\ v <> [] /\ query_property c pt key = [VTime t]
+    /\ e_day_start e v = Some (midnight cal d)
+    /\ local_day cal t = d
+    /\ eval_contact e r (Cond pt key OpEq v) c = RBool false
+    /\ eval_contact e r (Cond pt key OpGt v) c = RBool true.
+Proof.
+  exists cal25,
+    {| e_lower := fun x => x; e_tokens := fun _ => []; e_day_start := fun _ => Some 0%Z;
+       e_valid_lang := fun _ => true |},
+    {| r_field := fun _ => None; r_group := fun _ => false; r_flow := fun _ => false |},
+    {| c_uuid := []; c_name := []; c_lang := []; c_urns := []; c_ticket := false;
+       c_created := (day_ns + 1800000000000)%Z; c_last_seen := None; c_fields := [] |},
     PAttr, k_created_on, [50; 48; 50; 49]%N, 0%Z, (day_ns + 1800000000000)%Z.
   split; [exact cal25_ok|]. repeat split. discriminate.
 Qed.
